@@ -598,7 +598,11 @@ impl Model {
                 strategy,
                 migration,
                 result,
+                types_after,
             } => {
+                // every successful path runs strategy, create or update first, so the types that
+                // get persisted are the ones the layer reports afterwards
+                let (build, launch, cache) = &types_after.unwrap_or((*build, *launch, *cache));
                 let mut e = self.trait_request(
                     *id,
                     *layer,
@@ -611,10 +615,16 @@ impl Model {
                 self.after_request(*layer, &mut e);
                 e
             }
-            Op::WriteMetadata { layer, meta } => {
+            Op::WriteMetadata { layer, meta, .. } => {
                 let (types, _) = self.read_toml(*layer).unwrap_or((None, None));
                 self.write_toml(*layer, types, meta.table());
                 Expectation::simple(ExpResult::UnitOk)
+            }
+            Op::WriteEnv { layer, env } if env_name_too_long(env) => {
+                // NAME.<behaviour> would exceed NAME_MAX: the write must fail (and report it)
+                let mut e = Expectation::simple(ExpResult::ErrOther);
+                e.unconstrained = Some(*layer);
+                e
             }
             Op::WriteEnv { layer, env } => {
                 let m = EnvModel::from_spec(env);
@@ -1047,6 +1057,9 @@ impl Model {
             self.put_file(&l, f);
         }
         self.write_toml(i, Some(types), res.meta.table());
+        if res.env.as_deref().is_some_and(env_name_too_long) {
+            return ExpResult::ErrOther;
+        }
         let env = EnvModel::from_spec(res.env.as_deref().unwrap_or(&[]));
         self.set_env_dirs(i, &env);
         self.replace_sboms(i, &res.sboms);
@@ -1111,6 +1124,11 @@ impl Model {
         self.refs.clear();
         self.builds += 1;
     }
+}
+
+/// Would writing this environment need a file name longer than NAME_MAX (255 bytes)?
+pub fn env_name_too_long(spec: &[crate::envmodel::EnvEntry]) -> bool {
+    spec.iter().any(|e| e.name.len() + 1 + e.beh.suffix().len() > 255)
 }
 
 pub fn parse_layer_toml(data: &[u8]) -> Option<(Option<Types>, Option<toml::Table>)> {
